@@ -24,6 +24,19 @@ CLAIMS = {
 }
 
 NOT_APPLICABLE = {
+    "C19": "The subject is the CLI binary (crates/cli/src/main.rs, no library target): process exit status, clap's parser, DNS "
+           "resolution and one output document through serde_json::to_value / quick-xml / bson, judged by a 'well-formed "
+           "XML/BSON/JSON document' oracle over arbitrary server strings. That is formatting-dominated, heap-tree-shaped, "
+           "FFI-backed code - outside what bounded symbolic execution (Kani/CBMC) reaches here: two symbolic bytes through "
+           "str::split + a map did not finish in 15 minutes (DESIGN.md par. 3), and a symbolic string through serde_json + "
+           "quick-xml + an XML well-formedness oracle is far beyond that. No solver-based check is claimed; the technique is "
+           "not switched.",
+    "C20": "test_game_name_rules is driven by char::is_alphabetic, to_lowercase, str::split_inclusive, f64 parsing, "
+           "number_to_words, roman_numeral, a std HashMap<String, Vec<String>> and a sort. Probe: even the concrete call "
+           "test_single_game_rule(\"ab\", \"Ab\") (RandomState::new and _print stubbed) did not finish CBMC's symbolic "
+           "execution in 15 minutes (still unrolling core::unicode skip_search / binary_search_by); the grammar-relevant inputs "
+           "are symbolic names of three or more words. Choosing names from a token vocabulary would be enumeration of concrete "
+           "runs, not a solver verdict. No solver-based check is claimed; the technique is not switched.",
 }
 
 CLAIMS["C12"] = (
@@ -155,6 +168,23 @@ CLAIMS["C15"] = (
     "one-to-one and that as_original() refers to the same value.",
     "Trusted: hook H4. Outside: JSON text, Eco/Epic/Minetest.",
     "DESIGN.md §4 C15")
+
+CLAIMS["C14"] = (
+    "Solver verdict, for every entry of the definitions table (instances regenerated from definitions.rs and "
+    "games/{valve,gamespy,quake,unreal2}.rs on every run), all IPv4 addresses and port given / omitted, that the "
+    "definition-driven query makes exactly one protocol-level call - of the definition's protocol, to (ip, port or the "
+    "definition's default), with the definition's engine and gather settings - and that the game's dedicated module makes "
+    "an observationally equivalent call and passes the outcome on unchanged; plus, on the network model, that each "
+    "proprietary entry point sends its protocol's request to the definition's default port, and (thorough) that the three "
+    "real paths produce the same datagrams and outcome for a silent server and for an info reply with symbolic app id. "
+    "The real dispatch code runs with the protocol-level entry points replaced by recording stubs; that equal arguments "
+    "give equal behaviour for every server is the stated compositional step (each protocol query is a deterministic "
+    "function of its arguments and the server).",
+    "Trusted: the recording stubs (harness/src/c14.rs), the rule for when two engines are observationally equivalent "
+    "(app ids are observable only through the id check, the The Ship layout switch and the Risk of Rain 2 rule fix), "
+    "hooks H1/H3. Outside: responses of the generic path beyond Ok / error kind (Box<dyn CommonResponse>: C15), what a "
+    "module does with an Ok value (C02 game view), timeout / extra-settings variants of the entry points.",
+    "DESIGN.md §4 C14")
 
 ALL = ["C%02d" % i for i in range(1, 21)]
 
